@@ -111,6 +111,7 @@ def check(ctx, replay=None):
     if rc != 0:
         raise vlib.Machinery("asmreplay failed: " + err[-2000:])
     total = nontrivial = drift = traced = 0
+    second_errs = {}
     origins = {}
     for r in vlib.read_ndjson(res):
         total += 1
@@ -119,12 +120,14 @@ def check(ctx, replay=None):
             nontrivial += 1
         if r.get("traced"):
             traced += 1
+        if r.get("second_assemble_error"):
+            second_errs[r["second_assemble_error"]] = second_errs.get(r["second_assemble_error"], 0) + 1
         if r.get("drift"):
             drift += 1
             ctx.drift({"case": r["id"], "what": r["drift"]})
         if r["verdict"] == "violation":
             ctx.violation(r["why"], {"case": {"id": r["id"], "perbranch": r["perbranch"], "insts": r["insts"]},
-                                     "observed": {"err": r["err"], "out": r["out"]},
+                                     "observed": {"err": r.get("err"), "out": r.get("out", [])},
                                      "admissible": "an instruction list path-equivalent to the label program (or the 'useless jump' error for a jump whose branches both go to the next instruction)",
                                      "how": "./check C06 --replay <this file>"})
         elif r["bridges"] > 0:
@@ -136,6 +139,8 @@ def check(ctx, replay=None):
                        "with block sizes around 255/k, plus seeded random programs of 200..%d instructions; non-trivial = the real "
                        "assembler inserted at least one bridge" % (2000 if thorough else 900))
     ctx.cov["by_origin"] = origins
+    if second_errs:
+        ctx.cov["second_assemble_of_the_same_program_refused"] = second_errs
 
     # 3. code -> spec: hook H3 step events validated against Asm.tla at MaxSkip = 255
     if os.path.getsize(trace) > 0:
